@@ -81,7 +81,7 @@ def run(ctx):
     nreq = 5 if quick else 30
     nres = 4 if quick else 12
     stats = {"schemas": 0, "functions": 0, "functions_result_shaped_by_request": 0, "functions_with_typed_path": 0, "requests": 0, "result_values": 0,
-             "ops_valid": 0, "ops_mutated": 0, "ops_wrong_env": 0, "json_roundtrip_same": 0, "tl2_roundtrip_same": 0, "cross_same": 0, "typed_same": 0,
+             "ops_valid": 0, "ops_valid_go": 0, "ops_mutated": 0, "ops_wrong_env": 0, "json_roundtrip_same": 0, "tl2_roundtrip_same": 0, "cross_same": 0, "typed_same": 0,
              "kernel_rejected": 0, "budget_skips": 0, "model_enc_none": 0, "verdicts": {}}
     mism, bad, samples, unit_errors, skipped = [], [], [], [], []
     distinct = set()     # distinct (schema, function, request, result) with a valid result of more than 4 bytes that every transcoder pair reproduced
@@ -178,7 +178,20 @@ def run(ctx):
             if not o.startswith("ok "):
                 s_["model_enc_none"] += 1
                 continue
-            by_fun.setdefault(name, []).append((ft, x, rq, ps, o[3:]))
+            by_fun.setdefault(name, []).append((ft, x, rq, ps, o[3:], "valid"))
+        # results the implementation writes itself (FillRandomResultTL1 under the same request): model-free source of valid results
+        gen_lines, gen_meta = [], []
+        seen_rq = set()
+        for (ft, name, x, rq, ps) in rmeta:
+            if (name, rq) in seen_rq:
+                continue
+            seen_rq.add((name, rq))
+            gen_lines.append(f"oresgen {name} {rq} {rng.getrandbits(40)}")
+            gen_meta.append((ft, name, x, rq, ps))
+        gen_out = run_lines_resilient(u.gen.exe, [], gen_lines, timeout=600, max_restarts=20)
+        for (ft, name, x, rq, ps), o in zip(gen_meta, gen_out):
+            if o.startswith("ok ") and len(o) < 40000:
+                by_fun.setdefault(name, []).append((ft, x, rq, ps, o[3:], "valid_go"))
         for name, lst in by_fun.items():
             ft, x = lst[0][0], lst[0][1]
             r = x["result"]
@@ -190,9 +203,9 @@ def run(ctx):
                 s_["functions_with_typed_path"] += 1
             na = r.get("natArgs") or []
             head = f"res {san} {ft} {r['type']} {1 if r['bare'] else 0} {len(na)} " + " ".join(natarg_tok(a) for a in na)
-            for ft, x, rq, ps, rb in lst:
+            for ft, x, rq, ps, rb, vk in lst:
                 s_["result_values"] += 1
-                variants = [(rb, "valid")]
+                variants = [(rb, vk)]
                 if rng.random() < 0.35:
                     b = b"" if rb == "-" else bytes.fromhex(rb)
                     mb = mutate_bytes(rng, b, tags) if u.san else b[:rng.randrange(len(b) + 1)]
@@ -236,29 +249,32 @@ def run(ctx):
                 if k == "valid" or flags["j"] == "same":
                     pass
                 rtid = ures[name]
-                lossy = known_lossy(u.ins, rtid, l.split(" ")[3]) if k == "valid" else set()
+                valid = k in ("valid", "valid_go")
+                lossy = known_lossy(u.ins, rtid, l.split(" ")[3]) if valid else set()
                 cj, c2, cx = pick(lossy, ["F20", "F19", "F21"]), pick(lossy, ["F19"]), pick(lossy, ["F20", "F19", "F21"])
                 if flags["j"] == "same":
                     s_["json_roundtrip_same"] += 1
-                elif k == "valid":
+                elif valid:
                     ubad.append((u.name, l, g, f"C07:{cj}:{name}" if cj else f"C07:json:{u.name}:{name}", "TL1 -> JSON -> TL1 does not reproduce the result bytes"))
                 if flags["t2"] == "same":
                     s_["tl2_roundtrip_same"] += 1
-                elif flags["t2"] != "na" and k == "valid":
+                elif flags["t2"] != "na" and valid:
                     ubad.append((u.name, l, g, f"C07:{c2}:{name}" if c2 else f"C07:tl2:{u.name}:{name}", "TL1 -> TL2 -> TL1 does not reproduce the result bytes"))
                 if flags["x"] == "same":
                     s_["cross_same"] += 1
-                elif flags["x"] != "na" and k == "valid":
+                elif flags["x"] != "na" and valid:
                     ubad.append((u.name, l, g, f"C07:{cx}:{name}" if cx else f"C07:cross:{u.name}:{name}", "TL2 -> JSON / JSON -> TL2 disagree with TL1 -> JSON / TL1 -> TL2"))
-                if k == "valid" and flags["j"] == "same" and flags["t2"] in ("same", "na") and len(l.split(" ")[3]) > 8:
+                if k in ("valid", "valid_go") and flags["j"] == "same" and flags["t2"] in ("same", "na") and len(l.split(" ")[3]) > 8:
                     udist.add((u.name, l))
                 if flags["typed"] == "same":
                     s_["typed_same"] += 1
                 elif flags["typed"] != "na":
                     ubad.append((u.name, l, g, f"C07:typed:{u.name}:{name}:{flags['typed'].split(':')[1]}", "transcoder disagrees with typed decode + typed encode"))
-                if k == "valid" and (mf[0] != "ok" or len(mf) < 3 or mf[2] != l.split(" ")[3]):
+                if valid and (mf[0] != "ok" or len(mf) < 3 or mf[2] != l.split(" ")[3]):
                     umism.append((u.name, l, m, g + "  [model does not reproduce the valid result]"))
             else:
+                if k == "valid_go":     # the function's own FillRandomResultTL1 output under this very request
+                    ubad.append((u.name, l, g, f"C07:own-result-rejected:{u.name}:{name}", "ReadResultTL1 refuses what FillRandomResultTL1 / WriteResultTL1 wrote for the same request"))
                 if m != gf[0]:
                     umism.append((u.name, l, m, g))
         with lock:
@@ -290,5 +306,5 @@ def run(ctx):
         assumptions=["64-bit platform", "the templates are modelled, not verified: agreement shown on the listed functions x requests x results",
                      "TL2 and JSON legs are covered by the Go-side oracle only (the Coq model is TL1-level): partial",
                      "strings in generated values are valid UTF-8 (other byte strings in JSON: C05 / F9)", "the typed path is exercised only where the result type is itself a factory object without nat arguments (the typed ReadResult/WriteResult methods are not in the generic interface)"],
-        extra={"evaluations": stats["ops_valid"] + stats["ops_mutated"] + stats["ops_wrong_env"], "distinct_nontrivial": len(distinct),
+        extra={"evaluations": stats["ops_valid"] + stats["ops_valid_go"] + stats["ops_mutated"] + stats["ops_wrong_env"], "distinct_nontrivial": len(distinct),
                "skipped_constructs": skipped[:40]})
